@@ -338,11 +338,62 @@ def crystal_worker(part, job):
     part.nstates(1)
 
 
+SHIFTS = [(0.37, 0.21, 0.55), (0.5, 0.5, 0.5), (-0.13, 0.77, 0.02), (0.91, 0.08, 0.66), (0.25, 0.6, 0.95), (0.7, 0.35, 0.15)] \
+    + [s_ for s_ in itertools.product((0.0, 0.25, 0.5, 0.75), repeat=3) if any(s_)]     # a complete grid of origin shifts (used for the small oblique cell)
+
+
+def crystal_shift_worker(part, job):
+    """the whole crystal translated: the P1 description of a structure with every site shifted by the same vector describes the
+    same crystal at another origin, so the descriptors of its molecules (matched one to one, any order) are unchanged"""
+    from chmpy.crystal import Crystal, AsymmetricUnit
+
+    fname, L, api, si = job
+    if fname == "oblique-P1":
+        # one formamide-like molecule in a small, strongly oblique triclinic cell (neighbours in many cells, search extents differ
+        # most from the cell lengths here)
+        from mc import xtal
+        from mc.ref import lattice
+
+        cell = (5.2, 5.6, 6.1, 68.0, 64.0, 61.0)
+        cart = np.array([[0.0, 0.0, 0.0], [1.21, 0.1, 0.05], [-0.78, 1.09, -0.04], [-0.52, -0.96, 0.02], [-0.36, 2.0, -0.08], [-1.78, 1.04, -0.07]])
+        p0 = xtal.make_crystal(1, "", cell, ["C", "O", "N", "H", "H", "H"], cart @ np.linalg.inv(lattice.cell_matrix(*cell)))
+    else:
+        p0 = Crystal.load(TEST_FILES + fname).as_P1()
+    au = p0.asymmetric_unit
+    shifted = AsymmetricUnit(list(au.elements), np.asarray(au.positions) + np.array(SHIFTS[si]), labels=list(au.labels))
+    p1 = Crystal(p0.unit_cell, p0.space_group, shifted)
+    case = {"kind": "crystal-shift", "file": fname, "L": L, "api": api, "shift": si}
+    tag = "crystal-shift:%s:L=%d" % (api, L)
+    part.ev()
+    part.tr()
+    try:
+        kw = {"with_property": "d_norm"} if api == "molecular-dnorm" else {}
+        d0 = np.asarray(p0.molecular_shape_descriptors(l_max=L, **kw), dtype=float)
+        d1 = np.asarray(p1.molecular_shape_descriptors(l_max=L, **kw), dtype=float)
+    except Exception as e:
+        part.fail("raise:%s" % tag, "Crystal.%s descriptors of %s (P1, shifted origin) raised %s: %s" % (api, fname, type(e).__name__, str(e)[:100]), case)
+        return
+    if d0.shape != d1.shape or d0.ndim != 2:
+        part.fail("shape:%s" % tag, "descriptor array shapes %s vs %s" % (d0.shape, d1.shape), case)
+        return
+    worst = 0.0
+    for i in range(len(d0)):
+        worst = max(worst, min(metric(d1[j], d0[i], L) for j in range(len(d1))))
+    part.dev("translation:%s" % tag, worst)
+    if not worst <= 1e-4:   # worst observed on the unchanged tree 4.7e-7 (pure translation: float32 noise only)
+        part.fail("translation-dependence:%s" % tag, "Crystal %s descriptors of %s (l_max=%d) change by %.3g when the whole crystal is translated by %s (bound 1e-4; no molecule of the shifted crystal matches)"
+                  % (api, fname, L, worst, SHIFTS[si]), case)
+    part.outcome(("crystal-shift", api, L))
+    part.nstates(1)
+
+
 def worker(part, job):
     if job[0] == "mol":
         mol_worker(part, job[1])
     elif job[0] == "radial":
         radial_worker(part, job[1])
+    elif job[0] == "crystal-shift":
+        crystal_shift_worker(part, job[1])
     else:
         crystal_worker(part, job[1])
 
@@ -392,6 +443,10 @@ def run(ctx):
             for api in ("molecular", "molecular-dnorm", "atomic", "atom_group"):
                 for ri in ((0,) if not ctx.thorough else (0, 1, 2)):
                     jobs.append(("crystal", (fname, L, api, ri, ctx.seed)))
+    for fname in ("acetic_acid.cif", "iceII.cif", "oblique-P1"):
+        for si in range(len(SHIFTS) if fname == "oblique-P1" else 6 if fname == "iceII.cif" else 2):
+            for api in (("molecular", "molecular-dnorm") if si < 2 else ("molecular",)):
+                jobs.append(("crystal-shift", (fname, 4 if not ctx.thorough else 6, api, si)))
     jobs.sort(key=lambda j: -(j[1][1] if j[0] != "radial" else 0))
     ctx.pmap(worker, jobs)
     ctx.rule = ("molecules %s x l_max %s x surfaces {promolecule (2 isovalues; default and explicit off-centre origin), stockholder with a 6-molecule exterior (explicit and default origin/bounds), Molecule API, per-atom API; kinds in {NP, N}} x channels "
@@ -414,6 +469,8 @@ def replay(ctx, case):
         if case["mol"] == "C6H2":
             rots = rod_rotations()
         mol_worker(ctx, (case["mol"], case["L"], case["surface"], case["channel"], case["isovalue"], rots, case.get("seed", 0)))
+    elif k == "crystal-shift":
+        crystal_shift_worker(ctx, (case["file"], case["L"], case["api"], case["shift"]))
     elif k == "radial":
         radial_worker(ctx, (case["mol"], case["L"]))
     else:
